@@ -288,7 +288,7 @@ func runControlled(g generation, prog program, choose chooser, stallAfter time.D
 				switch o.Kind {
 				case opLOS:
 					computed := false
-					v := m.LoadOrStore(o.Key, func() interface{} { computed = true; return e.In.Arg })
+					v := m.LoadOrStore(o.Key, func() interface{} { computed = true; return asValue(e.In.Arg) })
 					out = output{Val: valString(v), Found: true, Computed: computed}
 				case opLoad:
 					v, ok := m.Load(o.Key)
@@ -297,7 +297,7 @@ func runControlled(g generation, prog program, choose chooser, stallAfter time.D
 						out.Val = ""
 					}
 				case opStore:
-					m.Store(o.Key, e.In.Arg)
+					m.Store(o.Key, asValue(e.In.Arg))
 				}
 				h.mu.Lock()
 				e.Out = out
@@ -410,9 +410,31 @@ func runControlled(g generation, prog program, choose chooser, stallAfter time.D
 	return res
 }
 
+// failure is a stored value that happens to implement error (the D2 client keeps lookup failures in its lazy maps); the
+// map must treat it like any other value.
+type failure struct{ text string }
+
+func (f failure) Error() string { return f.text }
+
+// asValue turns the unique text of an operation into the value it stores or computes: a plain string, or for every
+// third text a value of a type that implements error.
+func asValue(arg string) interface{} {
+	n := 0
+	for i := 0; i < len(arg); i++ {
+		n += int(arg[i])
+	}
+	if n%3 == 0 {
+		return failure{arg}
+	}
+	return arg
+}
+
 func valString(v interface{}) string {
 	if s, ok := v.(string); ok {
 		return s
+	}
+	if f, ok := v.(failure); ok {
+		return f.text
 	}
 	return fmt.Sprintf("NON-VALUE<%T>", v) // a leaked placeholder or nil
 }
@@ -790,7 +812,7 @@ func stress(run *ev.Run, g generation, rng *rand.Rand, rounds int) {
 					switch o.Kind {
 					case opLOS:
 						computed := false
-						v := m.LoadOrStore(o.Key, func() interface{} { computed = true; return e.In.Arg })
+						v := m.LoadOrStore(o.Key, func() interface{} { computed = true; return asValue(e.In.Arg) })
 						out = output{Val: valString(v), Found: true, Computed: computed}
 					case opLoad:
 						v, ok := m.Load(o.Key)
@@ -799,7 +821,7 @@ func stress(run *ev.Run, g generation, rng *rand.Rand, rounds int) {
 							out.Val = ""
 						}
 					case opStore:
-						m.Store(o.Key, e.In.Arg)
+						m.Store(o.Key, asValue(e.In.Arg))
 					}
 					h.mu.Lock()
 					e.Out = out
